@@ -105,4 +105,22 @@ def main : IO Unit := do
       if (match g with | .ok (_, vm) => vm.ip != want || vm.stack != [v] | .panic => true) then
         n := n + 1
         IO.println s!"DISAGREE vm_jump_if_false_impl top={reprStr v} operand_bytes=[{lo}, {hi}] gen={showVm g} expected_ip={want}"
+  -- the arms of the dispatch loop that work inline
+  for v in vals do
+    let st : List Rs.Value := [num 1, v]
+    let chk (name : String) (g : Rs.M (Unit × Rs.Vm)) (want : List Rs.Value) (wantIp : Int) : IO Bool := do
+      if (match g with | .ok (_, vm) => vm.stack != want || vm.ip != wantIp | .panic => true) then
+        IO.println s!"DISAGREE inline-arms {name} stack={reprStr st} gen={showVm g} expected_stack={reprStr want} expected_ip={wantIp}"
+        return true
+      return false
+    if (← chk "Nil" (Fns.vm_arm_Nil (mk st [])) (st ++ [.None]) 0) then n := n + 1
+    if (← chk "True" (Fns.vm_arm_True (mk st [])) (st ++ [.Boolean true]) 0) then n := n + 1
+    if (← chk "False" (Fns.vm_arm_False (mk st [])) (st ++ [.Boolean false]) 0) then n := n + 1
+    if (← chk "Pop" (Fns.vm_arm_Pop (mk st [])) [num 1] 0) then n := n + 1
+    if (← chk "CopyTop" (Fns.vm_arm_CopyTop (mk st [])) (st ++ [v]) 0) then n := n + 1
+    let vmc : Rs.Vm := { (mk st [9, 1, 0, 9] 1) with consts := [num 7, v] }
+    if (← chk "Constant" (Fns.vm_arm_Constant vmc) (st ++ [v]) 3) then n := n + 1
+  if (match Fns.vm_arm_Pop (mk [] []) with | .panic => false | .ok _ => true) then
+    n := n + 1
+    IO.println "DISAGREE inline-arms Pop on an empty stack does not panic"
   IO.println s!"SEARCHED TieVm disagreements={n}"
